@@ -649,7 +649,7 @@ def run(ctx):
     # coverage-guided campaign: bytes -> AST, the ISO C model is the in-target oracle; gcc confirms findings
     from vlib import fuzz
 
-    findings, stats = fuzz.run_campaign("checks.c02", known, ctx.seed, nprocs=ctx.pick(4, 16), runs=ctx.pick(8000, 600000), max_len=64)
+    findings, stats = fuzz.run_campaign("checks.c02", known, ctx.seed, nprocs=ctx.pick(4, 16), runs=ctx.pick(8000, 120000), max_len=64)
     res.extra["atheris"] = stats
     if "executions" in stats:
         res.evaluations += stats.get("in_domain", 0)
